@@ -71,9 +71,9 @@ theorem rf_exec {P0 : Name → Prop} {s : St} (hi : Inv P0 s) (r : Req) : RF (ex
         exact pushClaim_resp_mem _ _
   | upgradeXR n rv valid => trivial
   | deleteXR n fg => trivial
-  | createXR n rvSet => trivial
-  | patchXR n rv => trivial
-  | applyXR n => trivial
+  | createXR n rvSet cref => trivial
+  | patchXR n rv cref => trivial
+  | applyXR n cref => trivial
 
 theorem rf_err (s : St) (o : Outcome) (r : Req) : RF s r (errResp o r) := by
   cases r <;> cases o <;> simp [RF, errResp, Req.isWrite]
@@ -147,17 +147,24 @@ theorem g_updClaim {s s' : St} {cm c : Claim} (hcm : cm ∈ s.hist) (hf : Fut s 
     (hext : refExt cm c) : G s' (.updClaim c) :=
   ⟨cm, hf.hist cm hcm, hrv.symm, hext⟩
 
-theorem refExt_setRef {cm : Claim} {n : Name} (h : cm.ref = none ∨ cm.ref = some n) :
-    refExt cm { cm with ref := some n } := by
+theorem refName_setRef (cm : Claim) (t : GVK) (n : Name) : ({ cm with ref := some (mkXRef t n) } : Claim).refName = some n := rfl
+
+/-- writing the reference `mkXRef t n` (whatever the type `t`) over no reference, or over one with the
+same NAME (whatever its apiVersion/kind), keeps the set-once name -/
+theorem refExt_setRef {cm : Claim} {n : Name} (t : GVK) (h : cm.refName = none ∨ cm.refName = some n) :
+    refExt cm { cm with ref := some (mkXRef t n) } := by
   intro m hm
+  rw [refName_setRef]
   rcases h with h | h
   · rw [h] at hm; cases hm
   · rw [h] at hm; exact hm
 
-theorem ok_ssaBind (cm : Claim) (n : Name) (s : St) (hcm : cm ∈ s.hist) (hnf : ¬ foreignAt s n)
-    (href : cm.ref = none ∨ cm.ref = some n) : Ok P0 (ssaBind cm n) s := by
+theorem id_of_mem {s : St} (hi : Inv P0 s) {cm : Claim} (h : cm ∈ s.hist) : cm.id = s.me := hi.idOk cm h
+
+theorem ok_ssaBind (cfg : Cfg) (cm : Claim) (n : Name) (s : St) (hcm : cm ∈ s.hist) (hnf : ¬ foreignAt s n)
+    (href : cm.refName = none ∨ cm.refName = some n) : Ok P0 (ssaBind cfg cm n) s := by
   unfold ssaBind
-  refine ok_call (fun s' hf' _ => g_updClaim hcm hf' rfl (refExt_setRef href)) ?_
+  refine ok_call (fun s' hf' _ => g_updClaim hcm hf' rfl (refExt_setRef _ href)) ?_
   intro s2 resp hf2 hi2 hrf
   cases resp with
   | xr x => exact ok_ret _ _
@@ -165,8 +172,9 @@ theorem ok_ssaBind (cm : Claim) (n : Name) (s : St) (hcm : cm ∈ s.hist) (hnf :
   | err e => exact ok_failWith _ _ _
   | claim cm1 =>
     obtain ⟨hcm1, href1⟩ := hrf cm1 rfl
-    have hack : acked s2 n := ⟨cm1, hcm1, href1⟩
-    refine ok_call (fun s' hf' _ => ⟨hf'.acked hack, hf'.notForeign n (hf2.notForeign n hnf)⟩) ?_
+    have hack : acked s2 n := ⟨cm1, hcm1, by rw [Claim.refName, href1]; rfl⟩
+    refine ok_call (fun s' hf' hi' => ⟨⟨hf'.acked hack, hf'.notForeign n (hf2.notForeign n hnf)⟩,
+      id_of_mem hi' (hf'.hist _ (hf2.hist _ hcm))⟩) ?_
     intro s3 resp _ hi3 _
     cases resp with
     | claim c => exact ok_ret _ _
@@ -185,14 +193,14 @@ theorem ok_ssaBind (cm : Claim) (n : Name) (s : St) (hcm : cm ∈ s.hist) (hnf :
       · exact ok_finish _ _
 
 theorem ok_syncSSA (cfg : Cfg) (cm : Claim) (s : St) (hcm : cm ∈ s.hist)
-    (hnf : ∀ n, cm.ref = some n → ¬ foreignAt s n) : Ok P0 (syncSSA cfg cm) s := by
+    (hnf : ∀ n, cm.refName = some n → ¬ foreignAt s n) : Ok P0 (syncSSA cfg cm) s := by
   unfold syncSSA
-  cases href : cm.ref with
-  | some n => exact ok_ssaBind cm n s hcm (hnf n href) (Or.inr href)
+  cases href : cm.refName with
+  | some n => exact ok_ssaBind cfg cm n s hcm (hnf n href) (Or.inr href)
   | none =>
     refine ok_genName cfg.xpick s 10 2 cfg.cands _ ?_ (fun s1 => ok_statusThen _ _ _) s (Fut.refl s)
     intro n s1 hf1 hnf1
-    exact ok_ssaBind cm n s1 (hf1.hist cm hcm) hnf1 (Or.inl href)
+    exact ok_ssaBind cfg cm n s1 (hf1.hist cm hcm) hnf1 (Or.inl href)
 
 theorem ok_csaPost (cm1 : Claim) (s : St) (_hcm1 : cm1 ∈ s.hist) : Ok P0 (csaPost cm1) s := by
   unfold csaPost
@@ -213,7 +221,7 @@ theorem ok_csaPost (cm1 : Claim) (s : St) (_hcm1 : cm1 ∈ s.hist) : Ok P0 (csaP
     | claim cm3 => exact ok_finish _ _
 
 theorem ok_csaApply (cfg : Cfg) (xr : Option XR) (cm1 : Claim) (n : Name) (s : St) (hcm1 : cm1 ∈ s.hist)
-    (href : cm1.ref = some n) (hnf : ¬ foreignAt s n) : Ok P0 (csaApply cfg xr cm1 n) s := by
+    (href : cm1.refName = some n) (hnf : ¬ foreignAt s n) : Ok P0 (csaApply cfg xr cm1 n) s := by
   have hack : acked s n := ⟨cm1, hcm1, href⟩
   unfold csaApply
   refine ok_call (fun _ _ _ => trivial) ?_
@@ -225,7 +233,8 @@ theorem ok_csaApply (cfg : Cfg) (xr : Option XR) (cm1 : Claim) (n : Name) (s : S
     dsimp only
     split
     · exact ok_csaPost _ _ (hf2.hist _ hcm1)
-    · refine ok_call (fun s' hf' _ => ⟨(hf2.trans hf').acked hack, hf'.notForeign n (hf2.notForeign n hnf)⟩) ?_
+    · refine ok_call (fun s' hf' hi' => ⟨⟨(hf2.trans hf').acked hack, hf'.notForeign n (hf2.notForeign n hnf)⟩,
+        id_of_mem hi' (hf'.hist _ (hf2.hist _ hcm1))⟩) ?_
       intro s3 resp hf3 hi3 _
       cases resp with
       | claim c => exact ok_ret _ _
@@ -235,7 +244,7 @@ theorem ok_csaApply (cfg : Cfg) (xr : Option XR) (cm1 : Claim) (n : Name) (s : S
   | err e =>
     cases e with
     | notFound =>
-      refine ok_call (fun s' hf' _ => (hf2.trans hf').acked hack) ?_
+      refine ok_call (fun s' hf' hi' => ⟨(hf2.trans hf').acked hack, id_of_mem hi' (hf'.hist _ (hf2.hist _ hcm1))⟩) ?_
       intro s3 resp hf3 hi3 _
       cases resp with
       | claim c => exact ok_ret _ _
@@ -248,9 +257,9 @@ theorem ok_csaApply (cfg : Cfg) (xr : Option XR) (cm1 : Claim) (n : Name) (s : S
     | other => exact ok_failWith _ _ _
 
 theorem ok_csaBindNew (cfg : Cfg) (xr : Option XR) (cm : Claim) (n : Name) (s : St) (hcm : cm ∈ s.hist)
-    (href : cm.ref = none) (hnf : ¬ foreignAt s n) : Ok P0 (csaBindNew cfg xr cm n) s := by
+    (href : cm.refName = none ∨ cm.refName = some n) (hnf : ¬ foreignAt s n) : Ok P0 (csaBindNew cfg xr cm n) s := by
   unfold csaBindNew
-  refine ok_call (fun s' hf' _ => g_updClaim hcm hf' rfl (refExt_setRef (Or.inl href))) ?_
+  refine ok_call (fun s' hf' _ => g_updClaim hcm hf' rfl (refExt_setRef _ href)) ?_
   intro s2 resp hf2 hi2 hrf
   cases resp with
   | xr x => exact ok_ret _ _
@@ -258,17 +267,23 @@ theorem ok_csaBindNew (cfg : Cfg) (xr : Option XR) (cm : Claim) (n : Name) (s : 
   | err e => exact ok_failWith _ _ _
   | claim cm1 =>
     obtain ⟨hcm1, href1⟩ := hrf cm1 rfl
-    exact ok_csaApply cfg xr cm1 n s2 hcm1 href1 (hf2.notForeign n hnf)
+    exact ok_csaApply cfg xr cm1 n s2 hcm1 (by rw [Claim.refName, href1]; rfl) (hf2.notForeign n hnf)
 
 theorem ok_syncCSA (cfg : Cfg) (cm : Claim) (xr : Option XR) (s : St) (hcm : cm ∈ s.hist)
-    (hnf : ∀ n, cm.ref = some n → ¬ foreignAt s n) : Ok P0 (syncCSA cfg cm xr) s := by
+    (hnf : ∀ n, cm.refName = some n → ¬ foreignAt s n) : Ok P0 (syncCSA cfg cm xr) s := by
   unfold syncCSA
   cases href : cm.ref with
-  | some n => exact ok_csaApply cfg xr cm n s hcm href (hnf n href)
+  | some r =>
+    have hrn : cm.refName = some r.name := by rw [Claim.refName, href]; rfl
+    dsimp only
+    split
+    · exact ok_csaApply cfg xr cm r.name s hcm hrn (hnf _ hrn)
+    · exact ok_csaBindNew cfg xr cm r.name s hcm (Or.inr hrn) (hnf _ hrn)
   | none =>
+    have hrn : cm.refName = none := by rw [Claim.refName, href]; rfl
     refine ok_genName cfg.xpick s 10 2 cfg.cands _ ?_ (fun s1 => ok_statusThen _ _ _) s (Fut.refl s)
     intro n s1 hf1 hnf1
-    exact ok_csaBindNew cfg xr cm n s1 (hf1.hist cm hcm) href hnf1
+    exact ok_csaBindNew cfg xr cm n s1 (hf1.hist cm hcm) (Or.inl hrn) hnf1
 
 theorem ok_finalizeClaim (cm : Claim) (s : St) (hcm : cm ∈ s.hist) : Ok P0 (finalizeClaim cm) s := by
   unfold finalizeClaim
@@ -315,14 +330,14 @@ theorem ok_deletePath (cm : Claim) (xr : Option (Name × XR)) (s : St) (hcm : cm
         | other => exact ok_statusThen _ _ _
 
 theorem ok_syncWith (cfg : Cfg) (cm : Claim) (xr : Option (Name × XR)) (s : St) (hcm : cm ∈ s.hist)
-    (hnf : ∀ n, cm.ref = some n → ¬ foreignAt s n) : Ok P0 (syncWith cfg cm xr) s := by
+    (hnf : ∀ n, cm.refName = some n → ¬ foreignAt s n) : Ok P0 (syncWith cfg cm xr) s := by
   unfold syncWith
   split
   · exact ok_syncSSA cfg cm s hcm hnf
   · exact ok_syncCSA cfg cm _ s hcm hnf
 
 theorem ok_bindPath (cfg : Cfg) (cm : Claim) (xr : Option (Name × XR)) (s : St) (hcm : cm ∈ s.hist)
-    (hnf : ∀ n, cm.ref = some n → ¬ foreignAt s n) : Ok P0 (bindPath cfg cm xr) s := by
+    (hnf : ∀ n, cm.refName = some n → ¬ foreignAt s n) : Ok P0 (bindPath cfg cm xr) s := by
   unfold bindPath
   split
   · exact ok_syncWith cfg cm xr s hcm hnf
@@ -336,10 +351,12 @@ theorem ok_bindPath (cfg : Cfg) (cm : Claim) (xr : Option (Name × XR)) (s : St)
       obtain ⟨hcm1, href1⟩ := hrf cm1 rfl
       refine ok_syncWith cfg cm1 xr s2 hcm1 ?_
       intro n hn
-      exact hf2.notForeign n (hnf n (by rw [← href1]; exact hn))
+      exact hf2.notForeign n (hnf n (by
+        have : cm1.refName = cm.refName := by rw [Claim.refName, href1]; rfl
+        rw [← this]; exact hn))
 
 theorem ok_restOf (cfg : Cfg) (cm : Claim) (xr : Option (Name × XR)) (s : St) (hcm : cm ∈ s.hist)
-    (hnf : ∀ n, cm.ref = some n → ¬ foreignAt s n) (hx : ∀ n x, xr = some (n, x) → cm.ref = some n) :
+    (hnf : ∀ n, cm.refName = some n → ¬ foreignAt s n) (hx : ∀ n x, xr = some (n, x) → cm.refName = some n) :
     Ok P0 (restOf cfg cm xr) s := by
   unfold restOf
   split
@@ -347,7 +364,7 @@ theorem ok_restOf (cfg : Cfg) (cm : Claim) (xr : Option (Name × XR)) (s : St) (
   · exact ok_bindPath cfg cm xr s hcm hnf
 
 theorem ok_afterCheck (cfg : Cfg) (cm : Claim) (xr : Option (Name × XR)) (s : St) (hcm : cm ∈ s.hist)
-    (hnf : ∀ n, cm.ref = some n → ¬ foreignAt s n) (hx : ∀ n x, xr = some (n, x) → cm.ref = some n) :
+    (hnf : ∀ n, cm.refName = some n → ¬ foreignAt s n) (hx : ∀ n x, xr = some (n, x) → cm.refName = some n) :
     Ok P0 (afterCheck cfg cm xr) s := by
   unfold afterCheck
   generalize cfg.up = up
@@ -359,11 +376,11 @@ theorem ok_afterCheck (cfg : Cfg) (cm : Claim) (xr : Option (Name × XR)) (s : S
     | none => exact ok_restOf cfg cm _ s hcm hnf hx
     | some valid =>
       dsimp only
-      have href : cm.ref = some n := hx n x rfl
+      have href : cm.refName = some n := hx n x rfl
       refine ok_call (fun s' hf' _ => hf'.notForeign n (hnf n href)) ?_
       intro s2 resp hf2 hi2 _
-      have hnf2 : ∀ m, cm.ref = some m → ¬ foreignAt s2 m := fun m hm => hf2.notForeign m (hnf m hm)
-      have hx2 : ∀ (y : XR) m z, some (n, y) = some (m, z) → cm.ref = some m := by
+      have hnf2 : ∀ m, cm.refName = some m → ¬ foreignAt s2 m := fun m hm => hf2.notForeign m (hnf m hm)
+      have hx2 : ∀ (y : XR) m z, some (n, y) = some (m, z) → cm.refName = some m := by
         intro y m z h; cases h; exact href
       cases resp with
       | claim c => exact ok_ret _ _
@@ -378,8 +395,8 @@ theorem ok_afterCheck (cfg : Cfg) (cm : Claim) (xr : Option (Name × XR)) (s : S
         | other => exact ok_failWith _ _ _
 
 theorem ok_checked (cfg : Cfg) (cm : Claim) (xr : Option (Name × XR)) (s : St) (hi : Inv P0 s) (hcm : cm ∈ s.hist)
-    (hsome : ∀ n x, xr = some (n, x) → cm.ref = some n ∧ some x ∈ s.xhist n)
-    (hnone : xr = none → ∀ n, cm.ref = some n → none ∈ s.xhist n) : Ok P0 (checked cfg cm xr) s := by
+    (hsome : ∀ n x, xr = some (n, x) → cm.refName = some n ∧ some x ∈ s.xhist n)
+    (hnone : xr = none → ∀ n, cm.refName = some n → none ∈ s.xhist n) : Ok P0 (checked cfg cm xr) s := by
   unfold checked
   cases xr with
   | none =>
@@ -398,14 +415,16 @@ theorem ok_checked (cfg : Cfg) (cm : Claim) (xr : Option (Name × XR)) (s : St) 
       intro m hm
       rw [href] at hm; cases hm
       refine not_foreign_of_hist hi hxs ?_
-      intro y hy hc
+      intro y hy ⟨r, hr, hrne⟩
       cases hy
       apply hne
-      rw [hc]; rfl
+      unfold unbound
+      rw [hr, id_of_mem hi hcm]
+      simpa using hrne
 
 theorem ok_withClaim (cfg : Cfg) (cm : Claim) (s : St) (hi : Inv P0 s) (hcm : cm ∈ s.hist) : Ok P0 (withClaim cfg cm) s := by
   unfold withClaim
-  cases href : cm.ref with
+  cases href : cm.refName with
   | none =>
     dsimp only
     exact ok_checked cfg cm none s hi hcm (fun n x h => by cases h) (fun _ n hn => by rw [href] at hn; cases hn)
